@@ -1,7 +1,22 @@
 #!/bin/bash
-# tools/seed_run.sh <patch.diff> <ID> [tier] [extra args]: apply to /repo, run the check, undo straight afterwards
+# tools/seed_run.sh <patch.diff> <ID> [tier] [extra args]: run a check against /repo's HEAD + the patch.
+# Default: a scratch worktree of /repo under /tmp with the patch applied, checked through FLODYM_SRC (so that
+# long-running checks on /repo itself are not disturbed).  With SEED_IN_REPO=1 the patch is applied to /repo
+# itself (git -C /repo apply ...) and undone straight afterwards (git -C /repo checkout -- .).
 P=$(readlink -f "$1"); ID=$2; TIER=${3:-quick}; shift 3 2>/dev/null
-git -C /repo diff --quiet || { echo "/repo not clean"; exit 9; }
-git -C /repo apply "$P" || { echo "patch does not apply"; exit 9; }
-cd /verif; ./check $ID $TIER "$@" 2>&1 | grep -v "^VIOLATION" | tail -${TAILN:-6} | cut -c1-${CUTN:-260}; ./check $ID $TIER "$@" >/tmp/seed_run.out 2>&1; echo "exit=$? violations=$(grep -c '^VIOLATION' /tmp/seed_run.out)"
-git -C /repo checkout -- .
+cd /verif
+if [ -n "$SEED_IN_REPO" ]; then
+  git -C /repo diff --quiet || { echo "/repo not clean"; exit 9; }
+  git -C /repo apply "$P" || { echo "patch does not apply"; exit 9; }
+  ./check $ID $TIER "$@" >/tmp/seed_run.$$.out 2>&1; rc=$?
+  git -C /repo checkout -- .
+else
+  WT=$(mktemp -d /tmp/seedwt.XXXXXX); rmdir $WT
+  git -C /repo worktree add -q --detach $WT HEAD || exit 9
+  git -C $WT apply "$P" || { echo "patch does not apply"; git -C /repo worktree remove --force $WT; exit 9; }
+  FLODYM_SRC=$WT ./check $ID $TIER "$@" >/tmp/seed_run.$$.out 2>&1; rc=$?
+  git -C /repo worktree remove --force $WT
+fi
+grep -v "^VIOLATION" /tmp/seed_run.$$.out | tail -${TAILN:-6} | cut -c1-${CUTN:-260}
+echo "exit=$rc violations=$(grep -c '^VIOLATION' /tmp/seed_run.$$.out)"
+rm -f /tmp/seed_run.$$.out
